@@ -5,6 +5,9 @@
    ledger's view of it ([txdesc]: inputs, collateral and reference inputs (body field 18) resolved through the
    scenario's UTxO table — payment credential and the native script the output carries, if any —, body fields
    14 / 9 / 4 / 5 / 19, native scripts of the witness set) and applies the SPECIFICATION Ledger.required_key_hashes.
+   The fee clause (c10_oracle_fee) re-encodes the transaction with k placeholder witnesses and compares the body's fee with
+   the ledger's minimum fee for k = number of distinct required key hashes (redeemer execution units, reference-script
+   bytes of spent / reference outputs and the protocol parameters are read here from the transaction / the table).
    Script hashes are BLAKE2b-224(0x00 || CBOR of the script): the CBOR is produced here (ns_cbor, Cbor.enc), the digest
    is looked up in the harness's hashlib table; a script without an entry makes the oracle fail (fail closed).
    Hashes and signature checks cannot be computed here; they come from the harness's independent primitives
@@ -137,18 +140,24 @@ Definition reward_cred_of (x : cbor) : option cred :=
   | _ => None
   end.
 
-(* the chain state of the scenario: outpoint -> (payment credential of the address, native script the output carries) *)
-Definition utxo_table := list ((bytes * N) * (cred * option nscript)).
-Fixpoint resolve (t : utxo_table) (txid : bytes) (ix : N) : option (cred * option nscript) :=
+(* the chain state of the scenario: outpoint -> (payment credential of the address, native script the output carries,
+   Plutus script (language version, script bytes) the output carries) *)
+Definition oinfo := (cred * option nscript * option (N * bytes))%type.
+Definition o_cred (o : oinfo) : cred := fst (fst o).
+Definition o_ns (o : oinfo) : option nscript := snd (fst o).
+Definition o_pl (o : oinfo) : option (N * bytes) := snd o.
+Definition utxo_table := list ((bytes * N) * oinfo).
+Fixpoint resolve (t : utxo_table) (txid : bytes) (ix : N) : option oinfo :=
   match t with
   | [] => None
   | ((i, n), c) :: r => if bytes_eqb i txid && (n =? ix) then Some c else resolve r txid ix
   end.
-Definition input_out (t : utxo_table) (x : cbor) : option (cred * option nscript) :=
+Definition input_out (t : utxo_table) (x : cbor) : option oinfo :=
   match x with CA [CB txid; CU ix] => resolve t txid ix | _ => None end.
-Definition input_cred (t : utxo_table) (x : cbor) : option cred := option_map fst (input_out t x).
-Definition out_scripts (l : list (cred * option nscript)) : list nscript :=
-  flat_map (fun o => match snd o with Some s => [s] | None => [] end) l.
+Definition input_cred (t : utxo_table) (x : cbor) : option cred := option_map o_cred (input_out t x).
+Definition out_scripts (l : list oinfo) : list nscript :=
+  flat_map (fun o => match o_ns o with Some s => [s] | None => [] end) l.
+Definition sumN (l : list N) : N := fold_right N.add 0 l.
 
 (* optional field holding a collection: absent = empty *)
 Definition field_items {A} (f : cbor -> option A) (x : option cbor) : option (list A) :=
@@ -166,25 +175,60 @@ Definition field_keys {A} (f : cbor -> option A) (x : option cbor) : option (lis
 Definition wit_of_cbor (x : cbor) : option (bytes * bytes) :=
   match x with CA [CB vk; CB sg] => Some (vk, sg) | _ => None end.
 
+(* size in bytes of the script an output carries, as the ledger measures reference scripts: the CBOR of a native
+   script (produced here), the script bytes of a Plutus script *)
+Definition out_script_size (o : oinfo) : N :=
+  match o_ns o, o_pl o with
+  | Some s, _ => lenN (enc (ns_cbor s))
+  | None, Some (_, body) => lenN body
+  | None, None => 0
+  end.
+
+(* execution units of the redeemers (witness-set key 5): array form [tag, index, data, [mem, steps]] or
+   map form {[tag, index]: [data, [mem, steps]]} *)
+Definition exunits_of (x : cbor) : option (N * N) :=
+  match x with CA [CU m; CU st] => Some (m, st) | _ => None end.
+Definition redeemer_units (x : option cbor) : option (list (N * N)) :=
+  match x with
+  | None => Some []
+  | Some (CM kvs) => all_some (fun kv => match snd kv with CA [_; e] => exunits_of e | _ => None end) kvs
+  | Some v => match items v with
+              | Some l => all_some (fun r => match r with CA [_; _; _; e] => exunits_of e | _ => None end) l
+              | None => None
+              end
+  end.
+Definition plutus_of (ver : N) (x : option cbor) : option (list (N * bytes)) :=
+  field_items (fun y => option_map (fun b => (ver, b)) (as_bytes y)) x.
+
 Record txread := mkRead {
   r_desc : txdesc;
   r_wits : list (bytes * bytes);       (* [vkey, signature] entries of witness-set key 0, in order *)
-  r_body_bytes : bytes                 (* the body item re-encoded *)
+  r_body_bytes : bytes;                (* the body item re-encoded *)
+  r_fee : N;                           (* body field 2 *)
+  r_mem : N; r_steps : N;              (* execution units summed over the redeemers *)
+  r_refsize : N;                       (* bytes of the scripts carried by spent and reference inputs *)
+  r_inscript_size : N;                 (* ... by spent inputs alone *)
+  r_plutus : list (N * bytes);         (* Plutus scripts shipped in the witness set (keys 3, 6, 7) *)
+  r_body : list (cbor * cbor); r_ws : list (cbor * cbor); r_rest : list cbor   (* the decoded transaction *)
 }.
 
 Definition read_tx (t : utxo_table) (tx : bytes) : option txread :=
   match decode tx with
-  | Some (CA (CM body :: CM ws :: _)) =>
+  | Some (CA (CM body :: CM ws :: rest)) =>
       match field_items (input_out t) (mfind 0 body), field_items (input_cred t) (mfind 13 body),
             field_items as_bytes (mfind 14 body), field_items (ns_of 64) (mfind 1 ws),
             field_items cert_of (mfind 4 body), field_keys reward_cred_of (mfind 5 body),
             field_keys voter_of (mfind 19 body), field_items wit_of_cbor (mfind 0 ws) with
       | Some ins, Some col, Some rs, Some nss, Some certs, Some wds, Some vts, Some wits =>
-          match field_items (input_out t) (mfind 18 body), field_keys as_bytes (mfind 9 body) with
-          | Some refs, Some pols =>
-              Some (mkRead (mkTx (map fst ins) col rs nss (out_scripts ins ++ out_scripts refs) pols certs wds vts)
-                           wits (enc (CM body)))
-          | _, _ => None
+          match field_items (input_out t) (mfind 18 body), field_keys as_bytes (mfind 9 body),
+                mfind 2 body, redeemer_units (mfind 5 ws),
+                plutus_of 1 (mfind 3 ws), plutus_of 2 (mfind 6 ws), plutus_of 3 (mfind 7 ws) with
+          | Some refs, Some pols, Some (CU fee), Some units, Some p1, Some p2, Some p3 =>
+              Some (mkRead (mkTx (map o_cred ins) col rs nss (out_scripts ins ++ out_scripts refs) pols certs wds vts)
+                           wits (enc (CM body)) fee (sumN (map fst units)) (sumN (map snd units))
+                           (sumN (map out_script_size (ins ++ refs))) (sumN (map out_script_size ins))
+                           (p1 ++ p2 ++ p3) body ws rest)
+          | _, _, _, _, _, _, _ => None
           end
       | _, _, _, _, _, _, _, _ => None
       end
@@ -249,6 +293,47 @@ Definition c10_oracle_fake (SH : nscript -> bytes) (d : txdesc) (override : opti
       && nodup_pairs fake
   end.
 
+(* The fee pays for the placeholder witnesses: the fee of the returned body is at least the ledger's minimum fee of
+   this very transaction carrying one witness per distinct required key hash (lo), and not more than that fee with
+   the tolerated count (hi, the legacy registration key) plus a margin smaller than one witness.
+     size_with k : the transaction re-encoded (Cbor.enc of the decoded item; must reproduce tx byte for byte) with the
+                   vkey witnesses (witness-set key 0) replaced by k entries [bytes(32), bytes(64)];
+     min fee     : a * size + b + ceil(price_mem * mem + price_step * steps) + base * (bytes of reference scripts),
+                   reference scripts within the first tier (checked);
+     margin      : the builder's fake transaction keeps the scripts that spent inputs carry themselves in the witness set
+                   (build_witness_set() without remove_dup_script), sizes the fee field for the maximum fee and the
+                   change for the first-pass fee: r_inscript_size + 16 bytes, + 1 lovelace for its two roundings. *)
+Record pparams := mkPP {
+  pp_a : N; pp_b : N;                                  (* min_fee_coefficient, min_fee_constant *)
+  pp_mem_num : N; pp_mem_den : N;                      (* price_mem *)
+  pp_step_num : N; pp_step_den : N;                    (* price_step *)
+  pp_ref_base : N; pp_ref_range : N                    (* min_fee_reference_scripts base (per byte), range *)
+}.
+Definition ceil_div (a b : N) : N := (a + b - 1) / b.
+Definition ex_fee (pp : pparams) (mem steps : N) : N :=
+  ceil_div (mem * pp_mem_num pp * pp_step_den pp + steps * pp_step_num pp * pp_mem_den pp) (pp_mem_den pp * pp_step_den pp).
+Definition fake_entry : cbor := CA [CB (repeat x00 32); CB (repeat x00 64)].
+Definition is_key0 (kv : cbor * cbor) : bool := match fst kv with CU 0 => true | _ => false end.
+Definition vk_tagged (ws : list (cbor * cbor)) : bool :=
+  match mfind 0 ws with Some (CTag _ _) => true | Some _ => false | None => true end.
+Definition set_vkeys (k : N) (ws : list (cbor * cbor)) : list (cbor * cbor) :=
+  let rest := filter (fun kv => negb (is_key0 kv)) ws in
+  let l := CA (repeat fake_entry (N.to_nat k)) in
+  if k =? 0 then rest else (CU 0, if vk_tagged ws then CTag 258 l else l) :: rest.
+Definition size_with (k : N) (r : txread) : N :=
+  lenN (enc (CA (CM (r_body r) :: CM (set_vkeys k (r_ws r)) :: r_rest r))).
+Definition min_fee (pp : pparams) (r : txread) (k : N) : N :=
+  pp_a pp * size_with k r + pp_b pp + ex_fee pp (r_mem r) (r_steps r) + pp_ref_base pp * r_refsize r.
+Definition c10_oracle_fee (pp : pparams) (SH : nscript -> bytes) (r : txread) (tx : bytes) : bool :=
+  let d := r_desc r in
+  let req := Ledger.required_key_hashes SH d in
+  let klo := lenN (dedup req) in
+  let khi := lenN (dedup (req ++ legacy_keys d)) in
+  bytes_eqb (enc (CA (CM (r_body r) :: CM (r_ws r) :: r_rest r))) tx
+  && (r_refsize r <=? pp_ref_range pp)
+  && (min_fee pp r klo <=? r_fee r)
+  && (r_fee r <=? min_fee pp r khi + pp_a pp * (r_inscript_size r + 16) + 1).
+
 (* ------------------------------------------------------------------ model = implementation *)
 Definition pairs_subset (a b : list (bytes * bytes)) : bool := forallb (fun x => mem_pair x b) a.
 Definition pairs_set_eqb (a b : list (bytes * bytes)) : bool := pairs_subset a b && pairs_subset b a.
@@ -269,8 +354,8 @@ Record impl_slice := mkSlice {
 
 (* the six collectors, their union, _witness_count and the placeholder witnesses, on the prepared builder *)
 Definition c10_corr_slice (SH : nscript -> bytes) (b : bdesc) (s : impl_slice) : bool :=
-  set_eqb (s_all_scripts s) (map SH (all_scripts b))
-  && set_eqb (s_scripts s) (map SH (scripts SH b))
+  set_eqb (s_all_scripts s) (map SH (all_scripts b) ++ b_plutus b)
+  && set_eqb (s_scripts s) (map SH (scripts SH b) ++ plutus_scripts b)
   && set_eqb (s_required_signers s) (required_signer_vkey_hashes b)
   && set_eqb (s_inputs s) (input_vkey_hashes b)
   && set_eqb (s_certs s) (certificate_vkey_hashes b)
@@ -284,30 +369,44 @@ Definition c10_corr_slice (SH : nscript -> bytes) (b : bdesc) (s : impl_slice) :
 (* build_and_sign: the model run with the harness's reference primitives as tables
      pubs : ordinary seed -> public key;  h28 : vkey -> hash;  sigs : seed (ordinary) or kL||kR (extended) -> reference
      signature of txid;
-   against the witnesses found in the implementation's transaction; plus: the required set after build, and the
-   ledger view read from the transaction agrees with the scenario's description (harness sanity). *)
+     sel_ins / sel_cols : the outpoints build() appended to self.inputs / self.collaterals (the implementation's
+     builder after the build, minus what the scenario put there), resolved here through the scenario's UTxO table;
+   against the witnesses found in the implementation's transaction; plus: the required set and the placeholder count
+   after build, collateral is picked exactly when the model says the builder looks for it, and the ledger view read
+   from the transaction agrees with the model's builder after build (harness sanity). *)
+Definition creds_of (t : utxo_table) (l : list (bytes * N)) : option (list cred) :=
+  all_some (fun p => option_map o_cred (resolve t (fst p) (snd p))) l.
+Definition plutus_hash (h28 : list (bytes * bytes)) (p : N * bytes) : bytes := lookup_d h28 (n2b (fst p) :: snd p).
 Definition c10_corr_sign (b : bdesc) (keys : list skey) (auto : option bool) (force : bool)
            (pubs h28 sigs : list (bytes * bytes)) (t : utxo_table)
-           (req_post : list bytes) (tx txid : bytes) : bool :=
+           (sel_ins sel_cols : list (bytes * N))
+           (req_post : list bytes) (fake_post : N) (tx txid : bytes) : bool :=
   let H28 := lookup_d h28 in
   let SH := sh_of h28 in
   let ord_pub := lookup_d pubs in
   let ord_sign := fun seed (_ : bytes) => lookup_d sigs seed in
   let ext_sign := fun kL kR (_ : bytes) => lookup_d sigs (kL ++ kR) in
-  let b' := after_auto SH H28 ord_pub auto keys b in
-  match read_tx t tx with
-  | None => false
-  | Some r =>
+  match read_tx t tx, creds_of t sel_ins, creds_of t sel_cols with
+  | Some r, Some si, Some sc =>
+      let sel := mkSel si sc in
+      let b' := after_build SH H28 ord_pub auto keys sel b in
+      let ws := build_and_sign_witnesses SH H28 (fun _ => txid) ord_pub ord_sign ext_sign b auto force keys sel [] in
       forallb (fun k => match lookup (vk32 ord_pub k) h28 with Some _ => true | None => false end) keys
       && set_eqb req_post (builder_required b')
-      && pairs_set_eqb (r_wits r)
-           (map wit_bytes (build_and_sign_witnesses SH H28 (fun _ => txid) ord_pub ord_sign ext_sign b auto force keys []))
-      && Nat.eqb (length (r_wits r)) (length (build_and_sign_witnesses SH H28 (fun _ => txid) ord_pub ord_sign ext_sign b auto force keys []))
+      && (fake_post =? lenN (fake_vkey_witnesses (fee_witness_count SH H28 ord_pub b auto keys sel)))
+      && Bool.eqb (picks_collateral b) (negb (nilb sc))
+      && pairs_set_eqb (r_wits r) (map wit_bytes ws)
+      && Nat.eqb (length (r_wits r)) (length ws)
+      && Nat.eqb (length (d_inputs (r_desc r))) (length (b_inputs b'))
+      && Nat.eqb (length (d_collateral (r_desc r))) (length (b_collateral b'))
       && set_eqb (Ledger.required_key_hashes SH (r_desc r)) (Ledger.required_key_hashes SH (tx_of SH b'))
       (* the scripts shipped in the witness set, and the scripts reachable through reference / spent outputs, are the model's *)
       && set_eqb (map SH (d_native_scripts (r_desc r))) (map SH (witness_scripts SH b'))
+      && forallb (fun p => Nat.eqb (length (plutus_hash h28 p)) 28) (r_plutus r)
+      && set_eqb (map (plutus_hash h28) (r_plutus r)) (plutus_scripts b')
       && set_eqb (map SH (d_ref_scripts (r_desc r))) (map SH (d_ref_scripts (tx_of SH b')))
       && set_eqb (Ledger.scripts_needed (r_desc r)) (Ledger.scripts_needed (tx_of SH b'))
+  | _, _, _ => false
   end.
 
 (* ------------------------------------------------------------------ a correspondence case *)
@@ -317,6 +416,8 @@ Record signed := mkSigned {
   g_txid : bytes;                                (* BLAKE2b-256 of that slice (hashlib) *)
   g_req_post : list bytes;                       (* _build_required_vkeys() after the build *)
   g_fake_post : N;                               (* len(_build_fake_vkey_witnesses()) after the build *)
+  g_sel_inputs : list (bytes * N);               (* outpoints build() appended to self.inputs (coin selection) *)
+  g_sel_collateral : list (bytes * N);           (* outpoints build() appended to self.collaterals *)
   g_sigs : list (bytes * bytes);                 (* reference signatures of g_txid *)
   g_verif : list ((bytes * bytes * bytes) * bool)
 }.
@@ -324,6 +425,7 @@ Record signed := mkSigned {
 Record c10_case := mkCase {
   c_b : bdesc; c_keys : list skey; c_auto : option bool; c_force : bool;
   c_utxos : utxo_table;
+  c_pp : pparams;                                (* protocol parameters of the driver's chain context *)
   c_supplied : list bytes;                       (* reference key hashes of c_keys *)
   c_pubs : list (bytes * bytes); c_h28 : list (bytes * bytes);
   c_slice : impl_slice;
@@ -333,11 +435,21 @@ Record c10_case := mkCase {
 
 (* every script of the scenario has a 28-byte hash in the table, and the scenario is inside the domain of the
    theorems (side conditions of C10_required_complete / C10_witnesses) *)
+Definition b_after (c : c10_case) : bdesc :=
+  match c_signed c with
+  | None => c_b c
+  | Some g =>
+      match creds_of (c_utxos c) (g_sel_inputs g), creds_of (c_utxos c) (g_sel_collateral g) with
+      | Some si, Some sc => after_build (sh_of (c_h28 c)) (lookup_d (c_h28 c)) (lookup_d (c_pubs c)) (c_auto c) (c_keys c) (mkSel si sc) (c_b c)
+      | _, _ => c_b c
+      end
+  end.
 Definition c10_domain (c : c10_case) : bool :=
   let b := c_b c in
   forallb (has_sh (c_h28 c)) (all_scripts b ++ b_reference_scripts b ++ b_input_scripts b ++ b_refin_scripts b
                               ++ out_scripts (map snd (c_utxos c)))
-  && refs_registeredb (sh_of (c_h28 c)) b && refs_usedb (sh_of (c_h28 c)) b.
+  && refs_registeredb (sh_of (c_h28 c)) b && refs_usedb (sh_of (c_h28 c)) b
+  && refs_registeredb (sh_of (c_h28 c)) (b_after c) && refs_usedb (sh_of (c_h28 c)) (b_after c).
 
 Definition c10_corr (c : c10_case) : bool :=
   c10_domain c
@@ -345,7 +457,8 @@ Definition c10_corr (c : c10_case) : bool :=
   && match c_signed c with
      | None => negb (c_sign c)
      | Some g => c10_corr_sign (c_b c) (c_keys c) (c_auto c) (c_force c) (c_pubs c) (c_h28 c) (g_sigs g) (c_utxos c)
-                               (g_req_post g) (g_tx g) (g_txid g)
+                               (g_sel_inputs g) (g_sel_collateral g)
+                               (g_req_post g) (g_fake_post g) (g_tx g) (g_txid g)
      end.
 
 Definition c10_oracle_case (c : c10_case) : bool :=
@@ -358,6 +471,8 @@ Definition c10_oracle_case (c : c10_case) : bool :=
       (* placeholder count after the build against the specification applied to the transaction actually returned *)
       match b_witness_override (c_b c), read_tx (c_utxos c) (g_tx g) with
       | None, Some r => count_ok (sh_of (c_h28 c)) (r_desc r) (g_fake_post g)
+                        (* ... and the fee of the returned body pays for that many witnesses *)
+                        && c10_oracle_fee (c_pp c) (sh_of (c_h28 c)) r (g_tx g)
       | None, None => false
       | Some _, _ => true
       end
